@@ -552,6 +552,14 @@ pub fn catalogue(n: &Names, thorough: bool) -> Vec<Member> {
             c.add(fam, &class, "star_join", Q { distinct: false, sel: Sel::Star, from: j(JK::Inner, t.f(), u.f(), Some(fc.clone())), wh: None });
         }
         if parts.len() >= 2 {
+            // the conjuncts of the ON condition in reverse order (a filter written before the equi-join conjunct)
+            let mut rev = parts.clone();
+            rev.reverse();
+            if let Some(rc) = and_all(rev) {
+                c.add(fam, &class, "rev_join", sel(tu_cols.clone(), j(JK::Inner, t.f(), u.f(), Some(rc.clone())), None));
+                c.add(fam, &class, "rev_join_ut", sel(tu_cols.clone(), j(JK::Inner, u.f(), t.f(), Some(rc.clone())), None));
+                c.add(fam, &class, "rev_comma", sel(tu_cols.clone(), j(JK::Comma, t.f(), u.f(), None), Some(rc)));
+            }
             let rest = and_all(parts[1..].to_vec());
             c.add(fam, &class, "on0_wh1", sel(tu_cols.clone(), j(JK::Inner, t.f(), u.f(), Some(parts[0].clone())), rest.clone()));
             c.add(fam, &class, "on1_wh0", sel(tu_cols.clone(), j(JK::Inner, t.f(), u.f(), rest.clone()), Some(parts[0].clone())));
